@@ -429,7 +429,7 @@ def op_ci(w, op):
         w.events.append({'k': 'commit', 'sha': sha, 'why': 'ci'})
 
 
-def ci_green_all(w, which=('src', 'w', 'q')):
+def ci_green_all(w, which=('src', 'w', 'q'), state='SUCCESSFUL'):
     heads = w.heads()
     n = 0
     srcs = set()
@@ -445,10 +445,11 @@ def ci_green_all(w, which=('src', 'w', 'q')):
             ok = 'src' in which
         else:
             ok = False
-        if ok and not _currently_green(w, sha):
+        if ok and (state != 'SUCCESSFUL' or not _currently_green(w, sha)):
             w.repos['ci'].set_build_status(revision=sha, key=w.build_key,
-                                           state='SUCCESSFUL')
-            w.events.append({'k': 'commit', 'sha': sha, 'why': 'ci-green'})
+                                           state=state)
+            w.events.append({'k': 'commit', 'sha': sha, 'why': 'ci-green'
+                             if state == 'SUCCESSFUL' else 'ci-' + state})
             n += 1
     return n
 
@@ -458,7 +459,8 @@ def _currently_green(w, sha):
 
 
 def op_ci_green_all(w, op):
-    ci_green_all(w, tuple(op.get('which', ('src', 'w', 'q'))))
+    ci_green_all(w, tuple(op.get('which', ('src', 'w', 'q'))),
+                 op.get('state', 'SUCCESSFUL'))
 
 
 def op_jira(w, op):
